@@ -212,6 +212,36 @@ class TableRun:
                     self.check_err(pc, assume, order, rq, r)
         return reach
 
+    def check_bad_path(self, order):
+        """a request whose path input_path_to_segments refuses (contract: C03) is answered 400 by lookup_route - whatever is registered, no endpoint"""
+        chk, ex = self.chk, self.ex
+        rq = Request(0, self.req_methods, versioned=True, tag='bad')
+        def h(ex):
+            rc, rej, msg = self.R.build(ex, self.eps, order)
+            if rej is not None: return None
+            return describe_result(ex, self.R.lookup(ex, rc, rq, bad_path=True))
+        assume = self.assume + rq.assumptions()
+        outs = ex.explore(h, assume)
+        chk.paths += len(outs)
+        for pc, (kind, r) in outs:
+            if kind != 'ok' or r is None:
+                if kind != 'ok':
+                    m = chk.prove(self.name(f'refused-path/{order}/no-panic'), pc, z3.BoolVal(True), extra=assume)
+                    if m is not None: chk.mismatches.append(f'lookup_route panics on a refused path: {r}')
+                continue
+            good = r[0] == 'err' and r[1] == 400
+            m = chk.prove(self.name(f'refused-path-is-a-400-without-endpoint/{order}'), pc, z3.BoolVal(not good), extra=assume)
+            if m is not None:
+                c = concretise(m, self.all_versions + [rq.v])
+                req = {'method': 'GET', 'path': '/%ff', 'version': c.get(rq.v.name)}
+                case = {'op': 'router', 'endpoints': [e.json(c) for e in self.eps], 'order': list(order), 'requests': [req, dict(req, path='/a/../b'), dict(req, path='/%2e%2e')]}
+                nat = replay([case])[0]
+                res = nat.get('results') or []
+                all_reg = len(nat['registered']) == len(order) and all(x['ok'] for x in nat['registered'])
+                bad = [x for x in res if x.get('err', {}).get('status') != 400]
+                self.chk.counterexample(f'a path that input_path_to_segments refuses is answered {r[:3]} by lookup_route; table {[self.spec[i] for i in order]}: native /%ff, /a/../b, /%2e%2e -> '
+                                        f'{[(x.get("ok", {}).get("operation_id"), x.get("err", {}).get("status")) for x in res]}', case, all_reg and bool(bad), role=self.which + ':refused-path')
+
     def check_ok(self, pc, assume, order, rq, r, reach):
         chk, ex = self.chk, self.ex
         _, op_id, variables, max_bytes, ctype, handler = r
@@ -406,7 +436,9 @@ class TableRun:
                 self.check_reachable(order, accepted)
             if self.which in ('C01', 'C04'):
                 reach = self.check_lookup(order, accepted)
-                if first: self.witnesses(order, reach)
+                if first:
+                    self.witnesses(order, reach)
+                    self.check_bad_path(order)
                 first = False
             if self.which == 'C11':
                 self.check_lookup(order, accepted)
